@@ -335,7 +335,7 @@ PROPS = {
                 "(list size == info size == download size == bytes on disk, list type == info type, comment), and the on-disk tree incl. "
                 ".info_/.rsrc_/.incomplete side files == model; TestC11Burst: 2-8 clients ask for the list, get-info or a download of different files "
                 "(distinct sizes 0..70000) at the same instant for 5-20 rounds, every answer must carry the size of the file it is about; "
-                "non-trivial = a mutating action on an entry that has side files followed by a view check, every burst; distinct = hash(history, ignore set); TestC11BigSizes: a sparse file of 2^24 .. 2^32-1 bytes (boundaries 2^31 and 2^32-1 +-2): size in the list = in get-info = in the download reply = bytes on disk; TestC11WideFolder: a folder with 65535 / 65536 / 65540 visible entries is listed with that number as its size; two of the ignore sets hold a pattern with an inline case-insensitivity flag (which must not spread to the other patterns) and a pattern that is not a regular expression (which matches nothing while the others still apply); rename-and-comment action: one set-file-info request carrying a comment and a new name",
+                "non-trivial = a mutating action on an entry that has side files followed by a view check, every burst; distinct = hash(history, ignore set); TestC11BigSizes: a sparse file of 2^24 .. 2^32-1 bytes (boundaries 2^31 and 2^32-1 +-2): size in the list = in get-info = in the download reply = bytes on disk; TestC11WideFolder: a folder with 65536 / 65537 / 65540 visible entries is listed with that number as its size; two of the ignore sets hold a pattern with an inline case-insensitivity flag (which must not spread to the other patterns) and a pattern that is not a regular expression (which matches nothing while the others still apply); rename-and-comment action: one set-file-info request carrying a comment and a new name",
         "assumptions": ["rename/move onto an existing name, rename/move of partial uploads and of aliases, set-comment on folders are excluded (outside the statement); counted in excluded_by_construction",
                         "a mutating request that changes the tree as requested but gets no reply (names whose side-file names exceed 255 bytes) is tolerated and counted"],
         "quick": {"runs": [{"test": "^TestC11$", "shards": 13, "checks": 80, "timeout": 600},
